@@ -16,7 +16,7 @@ pub const PROP_NAMES: &[&str] = &[
 pub const ENUM_VALUES: &[&str] = &["available", "pending", "sold", "A", "b", "in-progress", "2xx", "3D", "self", "type", "+1", "-1", "a.b", "x y", "UPPER_CASE", "Self", "done"];
 pub const DESCS: &[&str] = &[
     "A simple description.", "  padded  ", "line one\nline two", "with \"quotes\" and \\backslash\\", "ends with */ comment", "{braces} and {}", "\n\nblank lines around\n\n",
-    "crlf\r\nline", "caf\u{e9} \u{1F600} unicode", "next\u{85}line separator", "", "See <https://example.com>.", "tab\there", "`code` and *emphasis*",
+    "crlf\r\nline", "caf\u{e9} \u{1F600} unicode", "next\u{85}line separator", "a pair {\"name\" : \"rex\"} with spaced colons", "", "See <https://example.com>.", "tab\there", "`code` and *emphasis*",
     "\"active\" while listed, otherwise \"archived\"", "'single' quoted 'ends'", "/// looks like a doc comment", "#[attr] and #![inner]", "trailing backslash \\",
     "/* block */ comment", "r#\"raw\"#", "\u{a0}non-breaking space around\u{a0}", "  \t mixed whitespace \n ",
 ];
@@ -513,7 +513,7 @@ impl<'a> SpecGen<'a> {
         if !shared_params.is_empty() { doc["components"]["parameters"] = Value::Object(shared_params); self.feat("referenced_parameter"); }
         if self.opts.servers {
             let n = [0usize, 1, 1, 2, 2, 3, 4][self.rng.below(7)];
-            let descs = [Some("Production server"), Some("sandbox"), Some("Beta (unstable)"), Some("Development"), None, Some("Main"), Some("the PRODUCTION one"), Some("EU region"), Some("Production: live traffic"), Some("Test environment (sandbox)"), Some("beta/unstable")];
+            let descs = [Some("Production server"), Some("sandbox"), Some("Beta (unstable)"), Some("Development"), None, Some("Main"), Some("the PRODUCTION one"), Some("EU region"), Some("Production: live traffic"), Some("Test environment (sandbox)"), Some("beta/unstable"), Some("Production server (not for development use)")];
             let urls = ["https://api.example.com", "https://api.example.com/v1/", "http://localhost:8080", "https://{region}.example.com/api", "/", "https://sandbox.example.com:8443/base"];
             let mut v = vec![];
             for _ in 0..n {
